@@ -1333,8 +1333,16 @@ class WeightedSumSamplingOperator(Operator):
 
     def _call(self, x):
         """Sum all values if indices are given multiple times."""
-        y = np.bincount(self._indices_flat, weights=x,
-                        minlength=self.range.size)
+        if self.domain.is_complex:
+            # `bincount` only supports real weights
+            x = x.asarray()
+            y = (np.bincount(self._indices_flat, weights=x.real,
+                             minlength=self.range.size) +
+                 1j * np.bincount(self._indices_flat, weights=x.imag,
+                                  minlength=self.range.size))
+        else:
+            y = np.bincount(self._indices_flat, weights=x,
+                            minlength=self.range.size)
 
         out = y.reshape(self.range.shape)
 
